@@ -62,3 +62,67 @@ PROPS['C13'] = {
                     'not A[not psi U (not phi and not psi)] == E[phi U psi] or EG phi on every transition system.'),
     'trusted': _OPS_TRUSTED,
 }
+
+_EVAL_TRUSTED = _OPS_TRUSTED + [
+    'compute_attractor_states (driver of the foreign ITGR + Xie-Beerel algorithms of biodivine-algo-bdd-scc): ASSUMED to return, inside the given universe, exactly the states satisfying !{x}: AG EF {x}',
+    'get_canonical_and_renaming: in unit eval only its abstract contract is used (result = canon_str / canon_map of the text) together with two ASSUMED facts about canonical forms of rendered trees (axiom_canon_wild, axiom_canon_not_wild in spec/evalctx.rs): a wild-card proposition with a plain label is its own canonical form, and nothing else has a canonical form of that shape',
+    'prelude/std_model.rs: String keys obey the hash-map key model, a String / BTreeMap is determined by its contents, a &str key denotes the String with the same characters, HashMap::get_mut; R-mapindex (map[&k] = *map.get(&k).unwrap()), R-refiter (for x in &m = for x in m.iter()), R-tupleclone, R-tostr (Display of HctlTreeNode prints formula_str)',
+    'STAGE 1 precondition of eval_node: the duplicate table of the EvalContext holds wild-card propositions only (sub-formula sharing off) and every wild-card counter covers the occurrences still to be evaluated; the string-based entry points (which enable sharing through mark_duplicates) are NOT yet under contract -- transparency of sharing is property C04',
+    'names: HCTL variable names have a slot in the graph (byte length - 1 < number of extra variable sets), nested quantifiers use distinct slots (preprocessing names them x, xx, ... by depth), propositions are network variables, domain sets do not depend on the auxiliary variables, context sets lie inside the unit set',
+]
+_EVAL_ASSUME = ['the graph handed to the evaluator carries its BooleanNetwork (as_network() is Some) and its unit set satisfies the regulation constraints and does not constrain state or auxiliary variables (graphs built by get_extended_symbolic_graph)']
+
+PROPS['C01'] = {
+    'units': ['ops', 'eval'],
+    'level_text': ('Proof that the recursive evaluator eval_node returns, for every graph, every well-formed tree over all operators and every '
+                   'context, a set that agrees with the HCTL semantics `sem` (spec/sem.rs, written from the statement: self-loops on states '
+                   'without successors, least/greatest fixed points, bind/jump/exists/forall) inside the graph\'s unit set; every operator '
+                   'function is proved equal to its fixed-point specification for all argument sets and all numbers of iterations.'),
+    'level_note': 'Trusted: Verus/Z3, the assumed model of the BDD/graph library, extraction rules, attractor algorithm, two facts about canonical keys. Stage 1: sub-formula sharing off; entry points not yet under contract (see C04).',
+    'explanation': ('eval_node (algorithm.rs) is verified arm by arm: each arm combines the proved postcondition of the operator (unit ops) with a proved '
+                    '"arm lemma" (spec/sem_arms.rs) showing that the operator preserves the invariant ok(g, result, sem) = agreement inside unit(g) '
+                    'and containment in the base unit set; recursion on the tree is proved terminating.'),
+    'trusted': _EVAL_TRUSTED, 'assumptions': _EVAL_ASSUME,
+}
+PROPS['C02'] = {
+    'units': ['ops', 'eval'],
+    'level_text': ('Proof that wild-card propositions evaluate to the supplied set and that bind/exists/forall with a domain have the documented '
+                   'meaning (bind additionally requires the current state in d; exists/forall range over d\'s states; empty domain: exists false, '
+                   'forall true), colour by colour, for every graph and every (colour-dependent, empty, partial) domain set; the three README '
+                   'equivalences are proved as lemmas over the semantics for every body formula.'),
+    'level_note': 'Same trusted base as C01. Domain sets must not depend on auxiliary variables (documented requirement of the library). Stage 1 (sharing off).',
+    'explanation': ('The Some(domain) arm of eval_node is verified against bind_dom_sem / exists_dom_sem / forall_dom_sem with the proved contracts of '
+                    'compute_valid_domain_for_var (projection of the domain onto the variable\'s slot) and restrict_stg_unit_bdd (unit set intersected, '
+                    'same transitions, no panic because the restricted unit is non-empty); arm_bind_dom / arm_exists_dom / arm_forall_dom / arm_dom_empty '
+                    'and lemma_readme_{bind,exists,forall} are proved in spec/.'),
+    'trusted': _EVAL_TRUSTED, 'assumptions': _EVAL_ASSUME,
+}
+PROPS['C03'] = {
+    'units': ['ops', 'eval'],
+    'level_text': ('Proof that every set returned by eval_node is a subset of the base graph\'s unit set (second half of the invariant `ok`), '
+                   'for all graphs with constrained parameters and all formulae, and that every atomic evaluation (propositions, variables, constants) '
+                   'is intersected with the unit set. Independence of closed results from the auxiliary variables is not yet a proved lemma.'),
+    'level_note': 'Same trusted base as C01; note that the model of the graph library deliberately does NOT intersect pre-images with the unit set. Stage 1 (sharing off); entry points not under contract.',
+    'explanation': 'ok(g, r, s) includes r.subset_of(base_unit()); each arm lemma proves it is preserved (pre-images, fixed points and projections of subsets of a state- and slot-independent unit set stay inside it).',
+    'trusted': _EVAL_TRUSTED, 'assumptions': _EVAL_ASSUME,
+}
+PROPS['C12'] = {
+    'units': ['ops', 'eval'],
+    'functions': {'eval': ['eval_node', 'is_attractor_pattern', 'is_fixed_point_pattern', 'compute_steady_states']},
+    'level_text': ('Proof that the two recognisers accept exactly the patterns (!{x}: AG EF {x}) and (!{x}: AX {x}) (an iff, so near misses are rejected), '
+                   'that the steady-state shortcut equals the semantics of !{x}: AX {x} inside every (restricted) unit set and for every variable name, '
+                   'and that both early returns of eval_node satisfy its general postcondition. The attractor half relies on the ASSUMED contract of the foreign attractor algorithm.'),
+    'level_note': 'Same trusted base as C01; attractor algorithm assumed. Stage 1 (sharing off).',
+    'explanation': 'is_attractor_pattern / is_fixed_point_pattern: r <==> view == pattern; arm_fixed_point: steady_set agrees with bind(AX(var)) ; compute_steady_states: FixedPoints::symbolic(graph, unit) == steady_set.',
+    'trusted': _EVAL_TRUSTED, 'assumptions': _EVAL_ASSUME,
+}
+PROPS['C18'] = {
+    'units': ['ops', 'eval'],
+    'level_text': ('Proof that eval_node is correct for an ARBITRARY self-loop set on formulae without EX, AX, AF, EG, AU, EW (precondition '
+                   '"steady == steady_set() or loop_insensitive(tree)"), and lemma that the semantics of such formulae does not depend on the '
+                   'self-loop set; on networks without steady states both variants receive the same (empty) set.'),
+    'level_note': 'Same trusted base as C01. The entry point model_check_formula_unsafe_ex itself is not yet under contract. Stage 1 (sharing off).',
+    'explanation': 'lemma_loop_insensitive (induction on the tree) + the parametric contract of eval_node + eval_ex / eval_ax / eval_eg / eval_au specifications that carry the self-loop set explicitly.',
+    'trusted': _EVAL_TRUSTED, 'assumptions': _EVAL_ASSUME,
+}
+UNIT_TIMEOUT['eval'] = 1200
